@@ -63,18 +63,20 @@ def run(ctx):
         conv = CONVENTIONS[case % len(CONVENTIONS)]
         spec = {'case': case, 'convention': conv}
         ctx.run_case(spec, one_dataset, obs, rng, conv, spec)
+    # scale: one grid with more than 8192 cells in every run (block-wise writers), and in the thorough tier two with more
+    # than 100 000 cells, so that the recorded indexes need six digits (dBase field widths, int casts)
+    from ..rng import gen
+    extras = [dict(ny=91, nx=92, bounds='var')]
     if ctx.thorough:
-        # scale: more than 100 000 cells, so that the recorded indexes need six digits (dBase field widths, int casts)
-        from ..rng import gen
-        for extra in range(2):
-            case = total + extra
-            if ctx.only_case is not None and ctx.only_case != case:
-                continue
-            if ctx.only_case is None and case % ctx.nshards != ctx.shard:
-                continue
-            spec = {'case': case, 'convention': 'cf1d', 'large': True}
-            ctx.run_case(spec, one_dataset, obs, gen(ctx.seed, ctx.prop, case, 'large'), 'cf1d', spec,
-                         dict(ny=3, nx=33400 + 7 * extra, bounds='var' if extra == 0 else 'none'))
+        extras += [dict(ny=3, nx=33400, bounds='var'), dict(ny=3, nx=33407, bounds='none')]
+    for extra, kw in enumerate(extras):
+        case = total + extra
+        if ctx.only_case is not None and ctx.only_case != case:
+            continue
+        if ctx.only_case is None and case % ctx.nshards != ctx.shard:
+            continue
+        spec = {'case': case, 'convention': 'cf1d', 'large': True}
+        ctx.run_case(spec, one_dataset, obs, gen(ctx.seed, ctx.prop, case, 'large'), 'cf1d', spec, kw)
 
 
 # ---------------------------------------------------------------------------
@@ -136,7 +138,7 @@ def one_dataset(obs, rng, conv, spec, force_kw=None):
     from emsarray.operations import geometry
     kw = dict(force_kw or {})
     if force_kw:
-        obs.cls('dataset:more-than-100000-cells')
+        obs.cls('dataset:more-than-100000-cells' if force_kw.get('nx', 0) > 30000 else 'dataset:more-than-8192-cells')
     if conv in ('cf2d', 'shoc_simple', 'shoc_standard') and chance(rng, 0.6):
         kw['holes'] = pick(rng, ['scatter', 'line', 'block', 'mixed'])
     if conv in ('cf2d', 'shoc_simple') and chance(rng, 0.3):
@@ -196,8 +198,13 @@ def export_and_read(obs, rng, geometry, ds, fmt, workdir, spec):
             r = obs.call('write_geojson', geometry.write_geojson, ds, path, mech='export-raised:geojson')
             if isinstance(r, Failed):
                 return None
-            with open(path) as f:
-                doc = json.load(f)
+            try:
+                with open(path) as f:
+                    doc = json.load(f)
+            except ValueError as exc:      # the independent reader cannot read the file back: that is the violation
+                obs.fail('the exported GeoJSON file is not valid JSON', {'error': str(exc)[:200], 'head': open(path).read()[:200]},
+                         mech='file-unreadable:geojson')
+                return None
             if not obs.expect(isinstance(doc, dict) and doc.get('type') == 'FeatureCollection' and isinstance(doc.get('features'), list),
                               'GeoJSON file holds a FeatureCollection', lambda: {'head': str(doc)[:300]}, mech='geojson-structure'):
                 return None
@@ -235,6 +242,9 @@ def export_and_read(obs, rng, geometry, ds, fmt, workdir, spec):
                 names = [f[0] for f in reader.fields if f[0] != 'DeletionFlag']
                 shapes = reader.shapes()
                 records = reader.records()
+            except Exception as exc:  # noqa: BLE001  (pyshp raises many types on a damaged file)
+                obs.fail('the exported Shapefile can not be read back', {'error': repr(exc)[:200]}, mech='file-unreadable:shapefile')
+                return None
             finally:
                 reader.close()
             lin_field = next((nm for nm in names if nm in ('linear_index', 'linear_ind')), None)
@@ -266,15 +276,23 @@ def export_and_read(obs, rng, geometry, ds, fmt, workdir, spec):
             r = obs.call('write_wkt', geometry.write_wkt, ds, path, mech='export-raised:wkt')
             if isinstance(r, Failed):
                 return None
-            with open(path) as f:
-                geom = shapely.from_wkt(f.read())
+            try:
+                with open(path) as f:
+                    geom = shapely.from_wkt(f.read())
+            except Exception as exc:  # noqa: BLE001  (GEOS ParseException)
+                obs.fail('the exported WKT file can not be parsed', {'error': str(exc)[:200]}, mech='file-unreadable:wkt')
+                return None
         else:
             path = target('geometry.wkb')
             r = obs.call('write_wkb', geometry.write_wkb, ds, path, mech='export-raised:wkb')
             if isinstance(r, Failed):
                 return None
-            with open(path, 'rb') as f:
-                geom = shapely.from_wkb(f.read())
+            try:
+                with open(path, 'rb') as f:
+                    geom = shapely.from_wkb(f.read())
+            except Exception as exc:  # noqa: BLE001
+                obs.fail('the exported WKB file can not be parsed', {'error': str(exc)[:200]}, mech='file-unreadable:wkb')
+                return None
         if not obs.expect(geom is not None and geom.geom_type == 'MultiPolygon', 'WKT / WKB file holds one MultiPolygon',
                           lambda: {'type': getattr(geom, 'geom_type', None)}, mech='wk-structure'):
             return None
